@@ -48,7 +48,7 @@ StreamConfigs ==
 QSelectConfigs == { c \in SelectConfigs : c.present = AllCbs /\ c.rcancel = 0 /\ ~c.ext /\ c.rfail <= 1 }
 QStreamConfigs == { c \in StreamConfigs : c.wbreak <= 3 /\ Len(c.plan) <= 2 }
 \* fault-free universe for the cancellation properties
-WellFormed(s) == \A i \in 1..Len(s) : s[i].k \notin {"bad", "pong", "cut", "trunc", "garbage", "eosEarly", "exc"}
+WellFormed(s) == \A i \in 1..Len(s) : s[i].k \notin {"bad", "pong", "cut", "trunc", "garbage", "eosEarly", "exc", "half"}
 CancelConfigs == { c \in QSelectConfigs \cup InsertConfigs \cup QStreamConfigs :
                      WellFormed(c.script) /\ c.rfail = 0 /\ c.wbreak = -1 /\ \A i \in 1..Len(c.plan) : c.plan[i].ret # "err" }
 
@@ -64,6 +64,8 @@ WBreakConfigs == { c \in InsertConfigs \cup QStreamConfigs \cup QSelectConfigs :
                                         S(<<"hdr", "data", "eos">>) } }
 \* a server exception while the sender is (or gets) blocked in a write: MC_QL_live_excstall.cfg
 ExcStallConfigs == { c \in InsertConfigs : c.rfail = 0 /\ c.wbreak = -1 /\ c.script \in { S(<<"exc">>), S(<<"hdr", "exc">>) } }
+\* a server that falls silent inside a packet: MC_QL_half.cfg (safety), MC_QL_live_half.cfg (Returns fails: known finding F-30)
+HalfConfigs == { Cfg("select", FALSE, FALSE, s, <<>>, AllCbs, 0, 0, 0, -1) : s \in { S(<<"hdr", "half">>), S(<<"half">>), S(<<"hdr", "data", "prog", "half">>) } }
 \* the column-info hand-over without its repairs (MC_QL_info_neg_*.cfg)
 No == FALSE
 InfoConfigs == { c \in InsertConfigs \cup QStreamConfigs : c.needInfo /\ WellFormed(c.script) /\ c.rfail = 0 /\ c.wbreak = -1
